@@ -533,7 +533,8 @@ def generate(rad, terms_path=None, keep=False):
         ftab = translate_flux(rad)
         status = {'translated': True, 'reason': None}
         if keep and terms_path:
-            txt = json.dumps(terms_to_json(ftab), indent=1, sort_keys=True) + '\n'
+            tj = terms_to_json(ftab)
+            txt = '{\n' + ',\n'.join(f' {json.dumps(k)}: {json.dumps(tj[k])}' for k in sorted(tj)) + '\n}\n'
             old = open(terms_path).read() if os.path.exists(terms_path) else None
             if old != txt:
                 with open(terms_path + '.tmp', 'w') as fh:
